@@ -126,6 +126,26 @@ def check(cx):
             rep.ob('knot', inst2, okk, 'F(knot.x) − knot.y = ' + shown,
                    fn=inst2, file=file2, line=line2,
                    msg='integral(knot) does not pass through the knot: F(knot.x) − knot.y = ' + shown)
+            # the constant is found by evaluating a polynomial of degree deg+1 at knot.x: no intermediate may be a higher
+            # power of knot.x than that (it overflows — and 0·∞ is NaN — for knots at which every needed power is finite)
+            from ..terms import subterms as _subterms
+            xid = nf.table.get(kx)
+            high = []
+            for s_ in _subterms(lanes[0]):
+                if isinstance(s_, tuple) and s_ and s_[0] in ('f*', 'f/', 'f+', 'f-', 'fma'):
+                    r_ = nf(s_)
+                    try:
+                        dg = r_.n.degree_in(xid)
+                    except AttributeError:
+                        dg = 0
+                    if dg > deg + 1:
+                        high.append((dg, s_))
+            high.sort(key=lambda z: -z[0])
+            rep.ob('range', inst2 + ':knot-power', not high,
+                   'no intermediate of the constant term is a higher power of knot.x than x^%d' % (deg + 1), fn=inst2, file=file2, line=line2,
+                   key='C07:range:%s:knot-power' % inst2,
+                   msg='integral(knot) computes %s, a power x^%d of knot.x, although the antiderivative has degree %d: it overflows (and 0·∞ = NaN) '
+                       'for finite knots at which the result is finite' % (term_str(high[0][1])[:120] if high else '', high[0][0] if high else 0, deg + 1))
             # integral differs from indefinite in the constant only
             if a_ind is not None:
                 il = lanes_of(a_ind.ret)
